@@ -12,7 +12,7 @@ open SaModel SaModel.Build SaModel.Spec
 theorem push_step {ext : Ext} {x : SVal} {b b' : B} {dt n md} (hg : Good b dt n md) (hraw : noRaw x = true)
     (hcap : vsize ext x ≤ room b) (h : push ext b x = .ok b') : Good b' dt n md ∧ room b ≤ room b' + vsize ext x := by
   refine ⟨hg.push hraw h, ?_⟩
-  obtain ⟨_, _, _, lv, _, hlv⟩ := C01.push_interp ext x b b' dt n md hraw hg.wf hg.safe hg.shape h
+  obtain ⟨_, _, _, lv, _, hlv⟩ := C01.push_interp ext x b b' dt n md (noRaw_ssa x hraw) (Or.inl hraw) hg.wf hg.safe hg.shape h
   obtain ⟨b'', h2, hr⟩ := Build.push_complete ext x hraw b dt n md lv hg hcap hlv
   rw [h] at h2; cases h2; exact hr
 
